@@ -153,15 +153,10 @@ def check_output_defined(ctx, F):
                 binds = any(i.get("member") == r for i in (b.get("inits") or []))
                 if not binds:
                     continue
-                cleared = False
-                for x in walk(b.get("body") or {}):
-                    if x.get("k") == "call" and "f" in x and F.fn(x["f"])["name"] in ("clear", "reset", "fill"):
-                        o = strip(x.get("obj") or {})
-                        if o.get("k") == "mem" and o.get("n") == r:
-                            cleared = True
-                if not cleared:
+                from .C08 import clears_on_every_path
+                if not clears_on_every_path(F, c["f"], r):
                     ctx.violation("C10.output-defined", site, "%s::%s (%s)" % (name, name, F.floc(c["f"])),
-                                  "%s read-modify-writes the caller's storage behind the reference member `%s` (%s) but its constructor does not clear it: "
+                                  "%s read-modify-writes the caller's storage behind the reference member `%s` (%s) but its constructor does not clear it on every path: "
                                   "the result depends on the previous content of that memory" % (name, r, sorted(sites)[0]), {})
 
 
